@@ -8,7 +8,7 @@ import json, os, shutil, subprocess, sys, tempfile
 from pathlib import Path
 from concurrent.futures import ThreadPoolExecutor
 V = Path(__file__).resolve().parent.parent; T = V / 'twins'
-ALL = [f'C{i:02d}' for i in range(1, 21)]
+ALL = os.environ.get('TWIN_CHECKS', '').split() or [f'C{i:02d}' for i in range(1, 21)]  # TWIN_CHECKS='C01 C13': only these
 
 def sh(cmd):
     return subprocess.run(cmd, shell=True, text=True, capture_output=True)
